@@ -50,6 +50,9 @@ def generate(tier, seed):
         tunit = rng.choice(['AU', 'AU', 'pc']) if kind == 'conv' else 'AU'
         runit = rng.choice(['table', 'table', 'pc', 'cm', 'km']) if kind == 'conv' else rng.choice(['bare', 'bare', 'AU', 'pc'])
         c = dict(kind=kind, aps=aps, val=val, req=req, tunit=tunit, runit=runit, below=below)
+        if kind in ('sed', 'var'):
+            c['sunit'] = rng.choice(['AU', 'AU', 'pc', 'cm'])            # unit in which the SED stores its apertures
+            c['both'] = nap > 1 and rng.random() < 0.5                  # the other interpolation method is called on the same SED object first
         if kind == 'conv' and nap > 1 and not below and k % 8 == 5:
             # the SAME request object is then passed to a second table that reaches further out
             c['twice'] = dict(ap=hi * 1000.0, val=[rng.logdyadic(0.01, 100.0, 10) for _ in range(nm)])
@@ -105,9 +108,18 @@ def impl(case):
     wav = case.get('wav') or [1.0 + i for i in range(len(case['val'][0][0]))]
     s.wav = np.array(wav) * u.micron
     s.nu = s.wav.to(u.Hz, equivalencies=u.spectral())
-    s.apertures = aps * u.au
+    su = case.get('sunit', 'AU')
+    s.apertures = (aps / LEN[su]) * u.Unit(su)
     s.flux = np.array(case['val'][0]) * u.mJy
     s.error = s.flux * 0.25
+    if case.get('both') and len(aps) > 1:
+        try:
+            if case['kind'] == 'sed':
+                s.interpolate_variable(np.array([float(wav[0]), float(wav[-1])]) if wav[0] < wav[-1] else np.array([float(wav[-1]), float(wav[0])]), np.array([float(aps[0]), float(aps[-1])]))
+            else:
+                s.interpolate(np.array([float(aps[0]), float(aps[-1])]))
+        except Exception:
+            pass        # the call under test is the next one
     if case['kind'] == 'sed':
         if case['runit'] == 'bare':
             req = np.array(case['req'])
